@@ -608,7 +608,7 @@ def run(ctx):
             emit(dict(kind='slug', value=value.encode(inc), incoming=inc, cls='directed-bytes'))
 
     # ---- seeded generation, in blocks (a block is generated only by the shard that owns it)
-    nblocks = ctx.pick(1500, 30000)
+    nblocks = ctx.pick(1500, 90000)
     for blk in range(nblocks):
         if not ctx.mine(blk):
             continue
